@@ -588,7 +588,11 @@ def _sweep_point(args):
     i, seed, tier, k, info, mode = args
     try:
         rng = random.Random(seed)
-        plan = _prop.with_fault(_prop.gen(rng, tier, i), k)
+        import inspect
+        if len(inspect.signature(_prop.with_fault).parameters) >= 3:
+            plan = _prop.with_fault(_prop.gen(rng, tier, i), k, info)
+        else:
+            plan = _prop.with_fault(_prop.gen(rng, tier, i), k)
         res = _worker.run(plan)
         viols = _prop.check_point(plan, res, info)
         out = {'i': i, 'k': k, 'seed': seed, 'hash': res.hash, 'violations': [v.to_json() for v in viols], 'exit': res.exit, 'mode': mode,
